@@ -247,6 +247,6 @@ class LazyList:
 
     @lazylist
     def reversed(self):
-        self.generated += list(itertools.tee(self.raw_object)[-1])
+        len(self)  # generate everything (tee() of a copy's iterator would not advance it)
         for item in self.generated[::-1]:
             yield item
